@@ -1,4 +1,7 @@
-(* FileProofs.v — proofs about FileModel.v (property C20). *)
+(* FileProofs.v — proofs about FileModel.v (property C20).
+   Everything is for an arbitrary byte type, arbitrary character classes, arbitrary sets of
+   creatable paths and of paths whose fclose fails; the File_Close modelled is the repaired one
+   (fixed_close = fixed_clear = true) except in the `_refuted` lemmas at the end. *)
 From Coq Require Import List Arith Bool ZArith Lia.
 From CelloV Require Import FileModel.
 Import ListNotations.
@@ -11,8 +14,15 @@ Section Proofs.
   Variable close_fails : nat -> bool.
 
   Notation stepF := (step B zero is_ws is_digit is_sign creatable close_fails true true).
+  Notation runF := (run B zero is_ws is_digit is_sign creatable close_fails true true).
+  Notation closeF := (file_close B close_fails true true).
+  Notation openF := (file_open B creatable close_fails true true).
+  Notation sstep := (spec_step B zero is_ws is_digit is_sign creatable close_fails).
+  Notation srun := (spec_run B zero is_ws is_digit is_sign creatable close_fails).
   Notation world := (world B).
+  Notation out := (out B).
 
+  (* ------------------------------------------------------------------ closed Files *)
   (* the operations that use the stream of File i (everything except creation, open, del, with) *)
   Definition uses (o : op B) (i : nat) : Prop :=
     match o with
@@ -25,6 +35,364 @@ Section Proofs.
     w_objs B w i = FObj None -> uses o i -> stepF w o = (w, ORaise B FIOError).
   Proof.
     intros w o i Hc Hu.
-    destruct o; simpl in Hu; try contradiction; subst; cbn [step on_open]; rewrite Hc; reflexivity.
+    destruct o; simpl in Hu; try contradiction; subst; unfold step, on_open, file_close; rewrite Hc; reflexivity.
+  Qed.
+
+  (* ------------------------------------------------------------------ the ledger invariant *)
+  Definition holds (w : world) (i h : nat) : Prop := w_objs B w i = FObj (Some h).
+  Definition closes (w : world) (h : nat) : nat := f_closes (w_files B w h).
+
+  Fixpoint count_close (h : nat) (t : list event) : nat :=
+    match t with
+    | [] => 0
+    | EvClose h' :: r => (if Nat.eqb h' h then 1 else 0) + count_close h r
+    | _ :: r => count_close h r
+    end.
+  Fixpoint count_open (h : nat) (t : list event) : nat :=
+    match t with
+    | [] => 0
+    | EvOpen h' :: r => (if Nat.eqb h' h then 1 else 0) + count_open h r
+    | _ :: r => count_open h r
+    end.
+  Definition is_ub (e : event) : bool :=
+    match e with EvCloseNull | EvStale _ => true | _ => false end.
+
+  Record inv (w : world) : Prop := mkInv {
+    inv_live : forall i h, holds w i h -> h < w_nfiles B w /\ closes w h = 0;
+    inv_inj : forall i j h, holds w i h -> holds w j h -> i = j;
+    inv_noleak : forall h, h < w_nfiles B w -> closes w h = 0 -> exists i, holds w i h;
+    inv_once : forall h, closes w h <= 1;
+    inv_fresh : forall h, w_nfiles B w <= h -> closes w h = 0;
+    inv_tr_close : forall h, count_close h (w_trace B w) = closes w h;
+    inv_tr_open : forall h, count_open h (w_trace B w) = if h <? w_nfiles B w then 1 else 0;
+    inv_tr_ub : forallb (fun e => negb (is_ub e)) (w_trace B w) = true
+  }.
+
+  Ltac eqb_cases :=
+    repeat match goal with
+    | H : context [Nat.eqb ?a ?b] |- _ => destruct (Nat.eqb_spec a b); subst
+    | |- context [Nat.eqb ?a ?b] => destruct (Nat.eqb_spec a b); subst
+    end.
+
+  Lemma inv_init : forall fs objs,
+    (forall i h, objs i <> FObj (Some h)) -> inv (w_init B fs objs).
+  Proof.
+    intros fs objs Hn. constructor; unfold holds, closes, w_init; simpl; intros; try lia; auto.
+    - exfalso; eapply Hn; eauto.
+    - exfalso; eapply Hn; eauto.
+  Qed.
+
+  (* changes that do not concern handles *)
+  Lemma inv_set_stream : forall w h s, inv w -> inv (set_stream B w h s).
+  Proof.
+    intros w h s [L I N O F TC TO TU].
+    constructor; unfold holds, closes, set_stream, set_file, upd in *; simpl in *; intros.
+    - specialize (L _ _ H). eqb_cases; simpl; auto.
+    - eauto.
+    - apply N; auto. eqb_cases; simpl in *; auto.
+    - specialize (O h0). eqb_cases; simpl; auto.
+    - specialize (F h0 H). eqb_cases; simpl; auto.
+    - rewrite TC. eqb_cases; simpl; auto.
+    - auto.
+    - auto.
+  Qed.
+
+  Lemma inv_set_fs : forall w fs, inv w -> inv (set_fs B w fs).
+  Proof. intros w fs [L I N O F TC TO TU]. constructor; auto. Qed.
+
+  Lemma inv_set_stack : forall w s, inv w -> inv (set_stack B w s).
+  Proof. intros w s [L I N O F TC TO TU]. constructor; auto. Qed.
+
+  (* an object that holds no handle may be replaced by another one that holds none *)
+  Definition handle_free (o : fobj) : Prop := forall h, o <> FObj (Some h).
+
+  Lemma inv_set_obj_free : forall w i o,
+    inv w -> handle_free (w_objs B w i) -> handle_free o -> inv (set_obj B w i o).
+  Proof.
+    intros w i o [L I N O F TC TO TU] Hf Ho.
+    constructor; unfold holds, closes, set_obj, upd in *; simpl in *; intros.
+    - eqb_cases. + exfalso; eapply Ho; eauto. + eauto.
+    - eqb_cases; try (exfalso; eapply Ho; eauto; fail); eauto.
+    - destruct (N _ H H0) as [j Hj]. exists j. eqb_cases; auto. exfalso; eapply Hf; eauto.
+    - auto.
+    - auto.
+    - auto.
+    - auto.
+    - auto.
+  Qed.
+
+  Lemma free_dead : handle_free FDead. Proof. intros h H; discriminate. Qed.
+  Lemma free_none : handle_free (FObj None). Proof. intros h H; discriminate. Qed.
+  Hint Resolve free_dead free_none : core.
+
+  (* File_Close on an open File: the stream is closed once, the File ends closed *)
+  Lemma close_some : forall w i h,
+    inv w -> holds w i h ->
+    let (w1, o1) := closeF w i (Some h) in
+    inv w1 /\ w_objs B w1 i = FObj None /\ (o1 = OkUnit B \/ o1 = ORaise B FIOError) /\
+    (forall j, j <> i -> w_objs B w1 j = w_objs B w j) /\
+    w_stack B w1 = w_stack B w /\ w_fs B w1 = w_fs B w /\
+    w_trace B w1 = EvClose h :: w_trace B w /\
+    (forall h', h' <> h -> w_files B w1 h' = w_files B w h').
+  Proof.
+    intros w i h Hinv Hh.
+    destruct (inv_live _ Hinv _ _ Hh) as [Hlt Hc].
+    unfold file_close, live. unfold closes in Hc. rewrite Hc. simpl Nat.eqb. cbv iota.
+    assert (Hinv1 : inv (set_obj B (log B (set_file B w h (mkF (f_st (w_files B w h)) 1)) (EvClose h)) i (FObj None))).
+    { destruct Hinv as [L I N O F TC TO TU].
+      constructor; unfold holds, closes, set_obj, log, set_file, upd in *; simpl in *; intros.
+      - eqb_cases; try discriminate; destruct (L _ _ H); simpl; auto.
+        exfalso. apply n. eapply I; eauto.
+      - eqb_cases; try discriminate. eauto.
+      - eqb_cases; simpl in *; try discriminate.
+        destruct (N _ H H0) as [j Hj]. exists j. eqb_cases; auto.
+        exfalso. rewrite Hh in Hj. inversion Hj. auto.
+      - eqb_cases; simpl; auto.
+      - eqb_cases; simpl; auto. lia.
+      - rewrite TC. eqb_cases; simpl; auto; try lia.
+      - auto.
+      - auto. }
+    set (cond := close_fails (s_path (f_st (w_files B w h))) && (0 <? s_pos (f_st (w_files B w h)))).
+    assert (Hrest : forall o1 : out, (o1 = OkUnit B \/ o1 = ORaise B FIOError) ->
+       let w1 := set_obj B (log B (set_file B w h (mkF (f_st (w_files B w h)) 1)) (EvClose h)) i (FObj None) in
+       inv w1 /\ w_objs B w1 i = FObj None /\ (o1 = OkUnit B \/ o1 = ORaise B FIOError) /\
+       (forall j, j <> i -> w_objs B w1 j = w_objs B w j) /\
+       w_stack B w1 = w_stack B w /\ w_fs B w1 = w_fs B w /\
+       w_trace B w1 = EvClose h :: w_trace B w /\
+       (forall h', h' <> h -> w_files B w1 h' = w_files B w h')).
+    { intros o1 Ho1. simpl.
+      split; [exact Hinv1|]. split; [unfold upd; rewrite Nat.eqb_refl; reflexivity|].
+      split; [exact Ho1|]. split; [intros j Hj; unfold upd; destruct (Nat.eqb_spec j i); congruence|].
+      split; [reflexivity|]. split; [reflexivity|]. split; [reflexivity|].
+      intros h' Hh'. unfold upd. destruct (Nat.eqb_spec h' h); congruence. }
+    destruct cond; apply Hrest; auto.
+  Qed.
+
+  Ltac ltb_cases :=
+    repeat match goal with
+    | H : context [Nat.ltb ?a ?b] |- _ => destruct (Nat.ltb_spec a b)
+    | |- context [Nat.ltb ?a ?b] => destruct (Nat.ltb_spec a b)
+    end.
+
+  (* a successful fopen: a fresh handle goes into a File that holds none *)
+  Lemma inv_alloc : forall w i fs' st,
+    inv w -> handle_free (w_objs B w i) ->
+    inv (mkW B fs' (upd (w_objs B w) i (FObj (Some (w_nfiles B w)))) (S (w_nfiles B w))
+             (upd (w_files B w) (w_nfiles B w) (mkF st 0)) (w_stack B w)
+             (EvOpen (w_nfiles B w) :: w_trace B w)).
+  Proof.
+    intros w i fs' st [L I N O F TC TO TU] Hf.
+    constructor; unfold holds, closes, upd in *; simpl in *; intros.
+    - eqb_cases; simpl; try (inversion H; subst; clear H); try (split; [lia|reflexivity]).
+      1: { split; [lia|apply F; lia]. }
+      destruct (L _ _ H1). split; [lia|auto].
+    - eqb_cases; auto; try (inversion H; subst; clear H); try (inversion H0; subst; clear H0).
+      all: try (match goal with H : w_objs B _ _ = FObj (Some _) |- _ => destruct (L _ _ H) end; lia).
+      all: eauto.
+    - eqb_cases; simpl in *.
+      + exists i. rewrite Nat.eqb_refl. auto.
+      + assert (Hlt : h < w_nfiles B w) by lia.
+        destruct (N _ Hlt H0) as [j Hj]. exists j. eqb_cases; auto. exfalso; eapply Hf; eauto.
+    - eqb_cases; simpl; auto.
+    - eqb_cases; simpl; auto; try lia. apply F; lia.
+    - rewrite TC. eqb_cases; simpl; auto.
+    - rewrite TO. eqb_cases; ltb_cases; simpl; try lia.
+    - auto.
+  Qed.
+
+  Definition not_crash (o : out) : Prop := o <> OCrash B.
+
+  (* File_Open ends either open on a fresh stream, or closed with IOError *)
+  Definition open_result (w1 : world) (i : nat) (o1 : out) : Prop :=
+    (o1 = OkUnit B /\ exists h, w_objs B w1 i = FObj (Some h)) \/
+    (o1 = ORaise B FIOError /\ w_objs B w1 i = FObj None).
+
+  Lemma open_inv : forall w i ho p m,
+    inv w -> w_objs B w i = FObj ho ->
+    let (w1, o1) := openF w i ho p m in
+    inv w1 /\ open_result w1 i o1 /\
+    (forall j, j <> i -> w_objs B w1 j = w_objs B w j) /\ w_stack B w1 = w_stack B w.
+  Proof.
+    intros w i ho p m Hinv Hi.
+    assert (Hnone : forall w0 : world, inv w0 -> w_objs B w0 i = FObj None ->
+      (forall j, j <> i -> w_objs B w0 j = w_objs B w j) -> w_stack B w0 = w_stack B w ->
+      let (w1, o1) := match fopen B creatable (w_fs B w0) p m with
+        | None => (set_obj B w0 i (FObj None), ORaise B FIOError)
+        | Some (fs', st) =>
+            (mkW B fs' (upd (w_objs B w0) i (FObj (Some (w_nfiles B w0)))) (S (w_nfiles B w0))
+                 (upd (w_files B w0) (w_nfiles B w0) (mkF st 0)) (w_stack B w0)
+                 (EvOpen (w_nfiles B w0) :: w_trace B w0), OkUnit B)
+        end in
+      inv w1 /\ open_result w1 i o1 /\
+      (forall j, j <> i -> w_objs B w1 j = w_objs B w j) /\ w_stack B w1 = w_stack B w).
+    { intros w0 Hinv0 Hi0 Hoth Hst.
+      destruct (fopen B creatable (w_fs B w0) p m) as [[fs' st]|].
+      - split; [apply inv_alloc; auto; rewrite Hi0; auto|].
+        unfold open_result. simpl. unfold upd.
+        split; [left; rewrite Nat.eqb_refl; eauto|].
+        split; [|auto]. intros j Hj. destruct (Nat.eqb_spec j i); [congruence|auto].
+      - split; [apply inv_set_obj_free; auto; rewrite Hi0; auto|].
+        unfold open_result. simpl. unfold upd.
+        split; [right; rewrite Nat.eqb_refl; eauto|].
+        split; [|auto]. intros j Hj. destruct (Nat.eqb_spec j i); [congruence|auto]. }
+    unfold file_open. destruct ho as [h|].
+    - pose proof (close_some w i h Hinv Hi) as Hc.
+      destruct (closeF w i (Some h)) as [w1 o1].
+      destruct Hc as (Hinv1 & Hi1 & Ho1 & Hoth & Hst & _).
+      destruct Ho1 as [-> | ->].
+      + apply Hnone; auto.
+      + split; [auto|]. split; [right; auto|]. split; auto.
+    - apply Hnone; auto.
+  Qed.
+
+  Ltac nc := unfold not_crash; discriminate.
+
+  Lemma on_open_inv : forall w i (k : nat -> stream -> world * out),
+    inv w ->
+    (forall h, holds w i h -> let (w1, o1) := k h (f_st (w_files B w h)) in inv w1 /\ not_crash o1) ->
+    let (w1, o1) := on_open B w i k in inv w1 /\ not_crash o1.
+  Proof.
+    intros w i k Hinv Hk. unfold on_open.
+    destruct (w_objs B w i) as [|[h|]] eqn:Hi.
+    - split; [auto|nc].
+    - destruct (inv_live _ Hinv _ _ Hi) as [_ Hc]. unfold live. unfold closes in Hc. rewrite Hc. simpl.
+      apply Hk. exact Hi.
+    - split; [auto|nc].
+  Qed.
+
+  Lemma step_inv : forall w o, inv w -> let (w1, o1) := stepF w o in inv w1 /\ not_crash o1.
+  Proof.
+    intros w o Hinv. destruct o; cbn [step].
+    - (* ONew *)
+      destruct (w_objs B w i) eqn:Hi; (split; [|nc]); auto.
+      apply inv_set_obj_free; auto. rewrite Hi; auto.
+    - (* ONewOpen *)
+      destruct (w_objs B w i) eqn:Hi; [|split; [auto|nc]].
+      assert (Hinv' : inv (set_obj B w i (FObj None))) by (apply inv_set_obj_free; auto; rewrite Hi; auto).
+      assert (Hi' : w_objs B (set_obj B w i (FObj None)) i = FObj None) by (simpl; unfold upd; rewrite Nat.eqb_refl; auto).
+      pose proof (open_inv _ i None p m Hinv' Hi') as Ho.
+      destruct (openF (set_obj B w i (FObj None)) i None p m) as [w1 o1].
+      destruct Ho as (Hinv1 & [[-> _] | [-> Hn]] & _).
+      + split; [auto|nc].
+      + split; [|nc]. apply inv_set_obj_free; auto. rewrite Hn; auto.
+    - (* OOpen *)
+      destruct (w_objs B w i) as [|ho] eqn:Hi; [split; [auto|nc]|].
+      pose proof (open_inv _ i ho p m Hinv Hi) as Ho.
+      destruct (openF w i ho p m) as [w1 o1].
+      destruct Ho as (Hinv1 & [[-> _] | [-> Hn]] & _); split; auto; nc.
+    - (* OClose *)
+      destruct (w_objs B w i) as [|[h|]] eqn:Hi; try (split; [auto|nc]).
+      pose proof (close_some w i h Hinv Hi) as Hc.
+      destruct (closeF w i (Some h)) as [w1 o1].
+      destruct Hc as (Hinv1 & _ & [-> | ->] & _); split; auto; nc.
+    - (* ODel *)
+      destruct (existsb (Nat.eqb i) (w_stack B w)); [split; [auto|nc]|].
+      destruct (w_objs B w i) as [|[h|]] eqn:Hi; try (split; [auto|nc]).
+      + pose proof (close_some w i h Hinv Hi) as Hc.
+        destruct (closeF w i (Some h)) as [w1 o1].
+        destruct Hc as (Hinv1 & Hn & [-> | ->] & _); (split; [|nc]); auto.
+        apply inv_set_obj_free; auto. rewrite Hn; auto.
+      + apply inv_set_obj_free; auto. rewrite Hi; auto.
+    - (* OWith *)
+      destruct (w_objs B w i); (split; [|nc]); auto. apply inv_set_stack; auto.
+    - (* OExit *)
+      destruct (w_stack B w) as [|i r]; [split; [auto|nc]|].
+      assert (Hinv' : inv (set_stack B w r)) by (apply inv_set_stack; auto).
+      change (w_objs B (set_stack B w r) i) with (w_objs B w i).
+      destruct (w_objs B w i) as [|[h|]] eqn:Hi; try (split; [auto|nc]).
+      pose proof (close_some (set_stack B w r) i h Hinv' Hi) as Hc.
+      destruct (closeF (set_stack B w r) i (Some h)) as [w1 o1].
+      destruct Hc as (Hinv1 & _ & [-> | ->] & _); split; auto; nc.
+    - (* ORead *)
+      apply on_open_inv; auto. intros h Hh.
+      destruct (fread B (w_fs B w) (f_st (w_files B w h)) n) as [[num data] s'].
+      destruct (negb (num =? 1) && negb (n =? 0) && negb (s_eof s'));
+        (split; [apply inv_set_stream; auto|nc]).
+    - (* OWrite *)
+      apply on_open_inv; auto. intros h Hh.
+      destruct (fwrite B zero (w_fs B w) (f_st (w_files B w h)) d) as [[num fs'] s'].
+      destruct (negb (num =? 1) && negb (length d =? 0));
+        (split; [apply inv_set_fs; apply inv_set_stream; auto|nc]).
+    - (* OSeek *)
+      apply on_open_inv; auto. intros h Hh.
+      destruct (fseek B (w_fs B w) (f_st (w_files B w h)) off o) as [s'|];
+        (split; [|nc]); auto. apply inv_set_stream; auto.
+    - apply on_open_inv; auto. intros h Hh. split; [auto|nc].
+    - apply on_open_inv; auto. intros h Hh. split; [auto|nc].
+    - apply on_open_inv; auto. intros h Hh. split; [auto|nc].
+    - (* OPrint *)
+      apply on_open_inv; auto. intros h Hh.
+      destruct (negb (m_write (s_mode (f_st (w_files B w h))))); [split; [auto|nc]|].
+      destruct (fwrite B zero (w_fs B w) (f_st (w_files B w h)) text) as [[num fs'] s'].
+      split; [apply inv_set_fs; apply inv_set_stream; auto|nc].
+    - (* OScan *)
+      apply on_open_inv; auto. intros h Hh.
+      destruct (negb (m_read (s_mode (f_st (w_files B w h))))); [split; [auto|nc]|].
+      destruct (scan_rec B is_ws is_digit is_sign _) as [[res used] eof].
+      destruct res as [[num word]|]; (split; [apply inv_set_stream; auto|nc]).
+  Qed.
+
+  Lemma run_inv : forall ops w, inv w ->
+    inv (fst (runF w ops)) /\ Forall not_crash (snd (runF w ops)).
+  Proof.
+    induction ops as [|o r IH]; intros w Hinv; simpl.
+    - split; auto.
+    - pose proof (step_inv w o Hinv) as Hs. destruct (stepF w o) as [w1 o1]. destruct Hs as [Hinv1 Hnc].
+      specialize (IH w1 Hinv1). destruct (runF w1 r) as [w2 xs]. simpl in *. destruct IH; split; auto.
+  Qed.
+
+  (* the statement about the ledger, free of the invariant's vocabulary *)
+  Definition ledger_ok (w : world) : Prop :=
+    (* nothing undefined ever reached stdio *)
+    (forall e, In e (w_trace B w) -> e <> EvCloseNull /\ forall h, e <> EvStale h) /\
+    (* every handle below w_nfiles came from exactly one fopen, no other handle exists *)
+    (forall h, count_open h (w_trace B w) = if h <? w_nfiles B w then 1 else 0) /\
+    (* fclose at most once per stream, and only on streams that were opened *)
+    (forall h, count_close h (w_trace B w) <= count_open h (w_trace B w)) /\
+    (* a stream has not been closed yet iff a File holds it; then exactly one File does *)
+    (forall h, h < w_nfiles B w ->
+       (count_close h (w_trace B w) = 0 <-> exists i, w_objs B w i = FObj (Some h))) /\
+    (forall i j h, w_objs B w i = FObj (Some h) -> w_objs B w j = FObj (Some h) -> i = j).
+
+  Lemma inv_ledger_ok : forall w, inv w -> ledger_ok w.
+  Proof.
+    intros w [L I N O F TC TO TU]. unfold ledger_ok, holds, closes in *.
+    split; [|split; [|split; [|split]]].
+    - intros e He. rewrite forallb_forall in TU. specialize (TU e He).
+      destruct e; simpl in TU; try discriminate; split; try discriminate; intros; discriminate.
+    - exact TO.
+    - intros h. rewrite TC, TO. destruct (Nat.ltb_spec h (w_nfiles B w)).
+      + apply O.
+      + rewrite F; auto.
+    - intros h Hh. rewrite TC. split.
+      + intros Hc. apply N; auto.
+      + intros [i Hi]. destruct (L _ _ Hi); auto.
+    - exact I.
+  Qed.
+
+  Theorem ledger_all_histories : forall fs objs ops,
+    (forall i h, objs i <> FObj (Some h)) ->
+    ledger_ok (fst (runF (w_init B fs objs) ops)) /\
+    Forall not_crash (snd (runF (w_init B fs objs) ops)).
+  Proof.
+    intros fs objs ops Hn.
+    destruct (run_inv ops (w_init B fs objs) (inv_init fs objs Hn)) as [Hi Hc].
+    split; [apply inv_ledger_ok; auto|auto].
+  Qed.
+
+  (* quiescence: when no File is open any more, every stream ever opened has been closed exactly once *)
+  Corollary all_closed_exactly_once : forall fs objs ops,
+    (forall i h, objs i <> FObj (Some h)) ->
+    let w := fst (runF (w_init B fs objs) ops) in
+    (forall i h, w_objs B w i <> FObj (Some h)) ->
+    forall h, h < w_nfiles B w -> count_open h (w_trace B w) = 1 /\ count_close h (w_trace B w) = 1.
+  Proof.
+    intros fs objs ops Hn w Hq h Hh.
+    destruct (ledger_all_histories fs objs ops Hn) as [(_ & HO & HC & HL & _) _]. fold w in HO, HC, HL.
+    specialize (HO h). specialize (HC h). specialize (HL h Hh).
+    destruct (Nat.ltb_spec h (w_nfiles B w)); [|lia].
+    split; auto.
+    destruct (count_close h (w_trace B w)) as [|[|k]] eqn:E; try lia.
+    exfalso. destruct HL as [HL _]. destruct (HL eq_refl) as [i Hi]. eapply Hq; eauto.
   Qed.
 End Proofs.
